@@ -517,6 +517,13 @@ impl<'a, 'tcx> Cx<'a, 'tcx> {
         items.push(("line", line.to_string()));
         items.push(("end_line", end.to_string()));
         items.push(("argc", body.arg_count.to_string()));
+        {
+            let ids = ty::GenericArgs::identity_for_item(tcx, did);
+            items.push((
+                "generics",
+                list(ids.iter().map(|a| q(&with_no_visible_paths!(with_no_trimmed_paths!(a.to_string()))))),
+            ));
+        }
         if matches!(kind, DefKind::Fn | DefKind::AssocFn) {
             items.push(("pub", tcx.visibility(did).is_public().to_string()));
             if let Some(imp) = tcx.impl_of_assoc(did) {
